@@ -30,7 +30,7 @@ def orderAllowList : List (String × String × Nat) := [
   ("macros/src/attr/mod.rs", "HashMap", 2),
   ("macros/src/attr/struct.rs", "HashMap", 2),
   ("macros/src/deps.rs", "HashSet", 5),
-  ("macros/src/lib.rs", "HashMap", 3),
+  ("macros/src/lib.rs", "HashMap", 5),   -- +2 since fix aa90858: `concrete: &HashMap<Ident, Type>` parameters, used for `contains_key` only
   ("macros/src/lib.rs", "HashSet", 3),
   ("macros/src/utils.rs", "HashMap", 2),
   ("ts-rs/src/export.rs", "HashMap", 3),
